@@ -110,6 +110,7 @@ def run(rep, tier):
     rep.rule('R04.6', 'skeleton agreement: the event/phase skeleton of the emitted uscxml_step equals the fast engine\'s (callbacks through on_exit/on_entry/on_transition/invoke/raise_done_event, ctx->config updates)')
     rep.rule('R04.7', 'index width provenance: the type chosen for the loop variables i, j, k can hold both loop bounds of every emitted machine, i.e. it is selected from the same maxima the two *_TYPE macros come from')
     rep.assume('same trace as the interpreter per chart, per-document tables (C05) and the executable-content functions are not decided here')
+    rep.rule('R04.9', 'set-valued completion: the emitted loop that adds the ancestors of a compound\'s deep completion visits every completion member (an initial attribute may name states in several regions), like the interpreter')
     rep.rule('R04.8', 'the tables the emitted machine is driven by are defined like the interpreter\'s: conflict relation with all terms of the definition (same rule as C05 R05.4), history completion like both engines (C05 R05.6), transition domain / LCCA quantifier shape (C05 R05.5)')
     fb = facts.FactBase(TUS)
     rep.covered(tus=len(TUS), extracted=fb.extracted, functions=len(fb.funcs))
@@ -347,6 +348,16 @@ def run(rep, tier):
     rep.check(not own_sizes, 'R04.7', 'writeFSM|index type', locstr(o), 'the type of i, j, k is chosen by comparing %s; the USCXML_NR_*_TYPE macros are sized from the maxima over all machines: %s' % (
         sorted(n_ for n_ in names if n_.startswith('_') or 'largest' in n_), 'consistent' if not own_sizes else 'INCONSISTENT - with a nested machine that has more transitions than the chosen type can count, the emitted loops over its transitions cannot terminate'))
 
+    # ---- R04.9 set-valued completion in the emitted step function
+    from . import _skel
+    for alt, cg in cgs.items():
+        brk, n = _skel.completion_closure_breaks(cg.fn('uscxml_step'))
+        rep.minimum('R04.9', n, 1, 'loops adding the ancestors of completion members in the emitted step function')
+        for lp, b in brk:
+            rep.fail('R04.9', 'emitted step|deep completion stops at the first member', 'generated uscxml_step line %d' % b['loc'][1], 'the emitted loop at generated line %d adds the ancestors of the completion members but leaves at the first one: an `initial` attribute naming states in several regions enters the other targets without their parents (the interpreter enters them)' % lp['loc'][1])
+        if not brk:
+            rep.ok('R04.9', 'emitted step|deep completion (%s)' % alt, 'every completion member contributes its ancestors')
+        break
     # ---- R04.8 (shared with C05: the document-dependent tables decide what the fixed step function does)
     from . import C05, _domain
     fbt = facts.FactBase(C05.TUS)
